@@ -96,6 +96,14 @@ def m_to_writer_pretty(ex, a, m):
     except MM.JsonSerErr as e: return e.r
     ev(ex, 'stdout', tree_pretty(ex, t, 0)); return ok(UNIT)
 
+@model_rx(r'^(?:serde_json::)?(?:ser::)?(to_string_pretty|to_vec_pretty)$')
+def m_to_string_pretty(ex, a, m):
+    try: t = MM._ser_value(ex, a[0], MM.JsonSerV('text'))
+    except MM.JsonSerErr as e: return e.r
+    cs = tree_pretty(ex, t, 0)
+    if m.group(1) == 'to_string_pretty': return ok(StrV(cs))
+    return ok(VecV([Cell(Int(b, 'u8')) for b in text_of(cs).encode('utf-8')]))
+
 def tree_pretty(ex, t, ind):
     k = t[0]
     if k in ('arr', 'obj'):
